@@ -142,13 +142,21 @@ namespace World
 /-- `S_::wrapUtility` (structure/state_1.inl, structure/state_2.inl): a headless region's anonymous
 head answers the default `Utility{1}`, like a named state that does not override `utility()`. -/
 def headUtility (w : World U) (sid inj : Nat) (headed : Bool) : World U × U :=
-  let w := if headed || w.cfg.verbose then w.logRec (.method sid .utility) else w
+  -- a named head logs the method in every report pass (`S_::deepReport*` → `wrapUtility`); an anonymous
+  -- head's `deepReportChange/deepReportUtilize` answer the default without logging anything
+  let w := if headed then w.logRec (.method sid .utility) else w
   if headed then
     let (w, d) := w.invoke sid .utility inj
     match d.findSome? (fun | .retUtil u => some u | _ => none) with
     | some u => (w, u)
     | none => (w.fail' "utility() returned nothing", zero)
   else (w, one)
+
+/-- `HeadState::wrapUtility` called by the region itself (`C_/O_::deepReportRandomize`): as `headUtility`,
+except that verbose logging also records the method for an anonymous head. -/
+def headUtilityWrap (w : World U) (sid inj : Nat) (headed : Bool) : World U × U :=
+  if headed then w.headUtility sid inj true
+  else ((if w.cfg.verbose then w.logRec (.method sid .utility) else w), one)
 
 /-- `S_::wrapRank`. -/
 def headRank (w : World U) (sid inj : Nat) (headed : Bool) : World U × Int :=
@@ -308,14 +316,14 @@ mutual
 def Node.reportRandomize : Node → World U → Node × World U × U
   | .leaf id inj, w => let (w, u) := w.headUtility id inj true; (.leaf id inj, w, u)
   | .compo id rid inj h st a r _ m s, w =>
-    let (w, hu) := w.headUtility id inj h
+    let (w, hu) := w.headUtilityWrap id inj h
     let (w, ranks) := s.reportRankAll w
     let top := topRank ranks
     let (s', w, us) := s.reportRandomizeTop ranks top w
     let (w, chosen) := w.resolveRandom id us (treeSum us) ranks top
     (.compo id rid inj h st a r chosen m s', w, mul hu (us.getD (chosen.getD 0) zero))
   | .ortho id rid inj h s, w =>
-    let (w, hu) := w.headUtility id inj h
+    let (w, hu) := w.headUtilityWrap id inj h
     let (s', w, us) := s.reportRandomizeAll w
     let sub := divNat (chainSum us) s.len
     let w := w.logRec (.randomRes id none sub)
